@@ -12,3 +12,5 @@ for p in "$@"; do
   echo "$p exit=$rc violations_reported=$nv :: $first"
 done
 git -C /repo checkout -- .
+# witnesses written while the seed was applied are not findings about the real tree
+rm -rf /verif/replays/*
